@@ -1,4 +1,5 @@
 /- Line-protocol handlers for the primitives (C17). -/
+import HtpModel.Prim.Builder
 import HtpModel.Prim.Ring
 import HtpModel.Prim.Table
 import HtpModel.Prim.Bstr
@@ -11,6 +12,7 @@ structure PrimState where
   ring : Ring.Ring Nat := Ring.create 1
   table : Table.Table := Table.create 1
   tableCmp : Nat := 0            -- key comparisons since the last `table cost`
+  bb : Option Builder.Builder := none
 
 def showOptNat : Option Nat → String
   | some 0 => "null"   -- a stored NULL pointer and "no element" are indistinguishable in C
@@ -80,7 +82,85 @@ def tableOp (s : PrimState) : List String → PrimState × String
     (s, s!"size={n} [{" ".intercalate es}]")
   | _ => (s, "bad-op")
 
+/-- the bytes a C-string argument denotes: up to the first NUL -/
+def cStr (b : Bytes) : Bytes := b.takeWhile (· != 0)
+
+/-- what each thin wrapper of bstr.c must equal, in terms of the *_mem function it delegates to -/
+def bstrWrapper : List String → String
+  | ["dup_ex", a, off, len] => match bytesOfHex a, off.toNat?, len.toNat? with
+    | some x, some o, some l => if o + l > x.length then "bad-op" else hexOfBytes ((x.drop o).take l)
+    | _, _, _ => "bad-op"
+  | [fn, a] =>
+    match bytesOfHex a with
+    | some x =>
+      match fn with
+      | "dup" => s!"{hexOfBytes x} {x.length} {x.length}"
+      | "dup_c" => hexOfBytes (cStr x)
+      | "dup_lower" => hexOfBytes (Bstr.toLowercase x)
+      | "memdup_to_c" => hexOfBytes (x.flatMap (fun c => if c == 0 then [0x5c, 0x30] else [c]))
+      | "strdup_to_c" => hexOfBytes (x.flatMap (fun c => if c == 0 then [0x5c, 0x30] else [c]))
+      | "wrap_c" => s!"{hexOfBytes (cStr x)} {(cStr x).length}"
+      | "wrap_mem" => s!"{hexOfBytes x} {x.length} refused"
+      | _ => "bad-op"
+    | none => "bad-op"
+  | [fn, a, b] =>
+    match bytesOfHex a, bytesOfHex b with
+    | some x, some y =>
+      let yc := cStr y
+      match fn with
+      | "cmp" => toString (Bstr.cmpMem x y)
+      | "cmp_nocase" => toString (Bstr.cmpMemNocase x y)
+      | "cmp_c" => toString (Bstr.cmpMem x yc)
+      | "cmp_c_nocase" => toString (Bstr.cmpMemNocase x yc)
+      | "cmp_c_nocasenorzero" => toString (Bstr.cmpMemNocaseNorzero x yc)
+      | "util_cmp_mem" => toString (Bstr.cmpMem x y)
+      | "util_cmp_mem_nocase" => toString (Bstr.cmpMemNocase x y)
+      | "begins_with" => boolInt (Bstr.beginsWithMem x y)
+      | "begins_with_nocase" => boolInt (Bstr.beginsWithMemNocase x y)
+      | "begins_with_c" => boolInt (Bstr.beginsWithMem x yc)
+      | "begins_with_c_nocase" => boolInt (Bstr.beginsWithMemNocase x yc)
+      | "index_of" => showIdx (Bstr.indexOfMem x y)
+      | "index_of_nocase" => showIdx (Bstr.indexOfMemNocase x y)
+      | "index_of_c" => showIdx (Bstr.indexOfMem x yc)
+      | "index_of_c_nocase" => showIdx (Bstr.indexOfMemNocase x yc)
+      | "index_of_c_nocasenorzero" => showIdx (Bstr.indexOfMemNocaseNorzero x yc)
+      | "util_mem_index_of_c" => showIdx (Bstr.indexOfMem x yc)
+      | "util_mem_index_of_c_nocase" => showIdx (Bstr.indexOfMemNocase x yc)
+      | "util_mem_index_of_mem" => showIdx (Bstr.indexOfMem x y)
+      | "util_mem_index_of_mem_nocase" => showIdx (Bstr.indexOfMemNocase x y)
+      | "add" => hexOfBytes (x ++ y)
+      | "add_c" => hexOfBytes (x ++ yc)
+      | "add_noex" => hexOfBytes (Bstr.addMemNoex (x.length + 3) x y)
+      | "add_c_noex" => hexOfBytes (Bstr.addMemNoex (x.length + 3) x yc)
+      | _ => "bad-op"
+    | _, _ => "bad-op"
+  | _ => "bad-op"
+
+/-- the string builder: bstr bb new | append <hex> | append_c <hex> | appendn <hex> | size | clear | tostr -/
+def bbOp (s : PrimState) : List String → PrimState × String
+  | ["new"] => ({ s with bb := some Builder.create }, "ok")
+  | [fn, a] =>
+    match s.bb, bytesOfHex a with
+    | some b, some x =>
+      match fn with
+      | "append" => let b := Builder.append b x; ({ s with bb := some b }, s!"1 {Builder.size b}")
+      | "appendn" => let b := Builder.append b x; ({ s with bb := some b }, s!"1 {Builder.size b}")
+      | "append_c" => let b := Builder.appendC b x; ({ s with bb := some b }, s!"1 {Builder.size b}")
+      | _ => (s, "bad-op")
+    | _, _ => (s, "bad-op")
+  | [fn] =>
+    match s.bb with
+    | some b =>
+      match fn with
+      | "size" => (s, toString (Builder.size b))
+      | "clear" => let b := Builder.clear b; ({ s with bb := some b }, toString (Builder.size b))
+      | "tostr" => let r := Builder.toStr b; (s, s!"{hexOfBytes r} {r.length}")
+      | _ => (s, "bad-op")
+    | none => (s, "bad-op")
+  | _ => (s, "bad-op")
+
 def bstrOp : List String → String
+  | "w" :: rest => bstrWrapper rest
   | ["char_at", a, p] => match bytesOfHex a, p.toNat? with
     | some x, some i => (match Bstr.charAt x i with | some c => toString c.toNat | none => "-1")
     | _, _ => "bad-op"
